@@ -19,6 +19,9 @@ func runC04(c *mon.Ctx) {
 		if i%4 == 0 {
 			c04AliasLength(c, r.Fork(41))
 		}
+		if i%4 == 1 {
+			invalidTwinsCase(c, r.Fork(42), "wrong-name-or-tags/invalid-bytes", false)
+		}
 	})
 }
 
@@ -415,4 +418,67 @@ func expectList(m map[string]nameTags) []string {
 		out = append(out, fmt.Sprintf("%q%v", e.name, e.tags))
 	}
 	return out
+}
+
+// invalidTwinsCase: two derivations that differ only in bytes that are not
+// valid UTF-8 (tag value, tag key or subscope name ending in 0xff / 0xfe / a
+// lone continuation byte). Without sanitize options strings are passed through
+// byte for byte, so these are two identities: two scopes (checkPtr, C05), each
+// delivering under its own name and tags (C04).
+func invalidTwinsCase(c *mon.Ctx, r *mon.Rand, sig string, checkPtr bool) {
+	bads := []string{"\xff", "\xfe", "\xc0", "\x80", "\xf5"}
+	i := r.Intn(len(bads))
+	j := (i + 1 + r.Intn(len(bads)-1)) % len(bads)
+	base := r.Ident(4)
+	if r.Bool() {
+		base += "é"
+	}
+	a, b := base+bads[i], base+bads[j]
+	if r.Bool() {
+		a, b = bads[i]+base, bads[j]+base
+	}
+	where := r.Intn(3) // 0 value, 1 key, 2 subscope name
+	cached := r.Bool()
+	opts := tally.ScopeOptions{OmitCardinalityMetrics: true, Prefix: r.Pick("", "svc")}
+	var rec *mon.Recorder
+	if cached {
+		cr := mon.NewCachedRec(false)
+		rec, opts.CachedReporter = cr.Recorder, cr
+	} else {
+		pr := mon.NewPlainRec(false)
+		rec, opts.Reporter = pr.Recorder, pr
+	}
+	root, _ := vNewRoot(opts, 0, uint(r.Range(0, 3)))
+	c.Eval(1)
+	desc := map[string]interface{}{"first": a, "second": b, "differ_in": []string{"tag value", "tag key", "subscope name"}[where], "cached": cached, "prefix": opts.Prefix}
+	derive := func(x string) (tally.Scope, string, map[string]string) {
+		switch where {
+		case 0:
+			return root.Tagged(map[string]string{"k": x}), mon.RefName(opts.Prefix, ".", "m"), map[string]string{"k": x}
+		case 1:
+			return root.Tagged(map[string]string{x: "v"}), mon.RefName(opts.Prefix, ".", "m"), map[string]string{x: "v"}
+		}
+		return root.SubScope(x), mon.RefName(opts.Prefix, ".", x, "m"), nil
+	}
+	var n1, n2 string
+	var t1, t2 map[string]string
+	c.Guard("panic/invalid-twins", func() interface{} { return desc }, func() {
+		var s1, s2 tally.Scope
+		s1, n1, t1 = derive(a)
+		s1.Counter("m").Inc(1)
+		s2, n2, t2 = derive(b)
+		s2.Counter("m").Inc(2)
+		if checkPtr && s1 == s2 {
+			c.Violation("different-identity-same-scope/invalid-bytes", map[string]interface{}{"why": fmt.Sprintf("the derivations through %q and %q returned one scope object", a, b), "case": desc})
+		}
+		tally.VerifReportPass(root)
+	})
+	_, agg, _ := rec.Snapshot()
+	if got := agg[mon.IdentKey(n1, t1)].Sum; got != 1 {
+		c.Violation(sig, map[string]interface{}{"why": fmt.Sprintf("counter of the first derivation: %d delivered under name %q tags %q, 1 recorded", got, n1, t1), "case": desc})
+	}
+	if got := agg[mon.IdentKey(n2, t2)].Sum; got != 2 {
+		c.Violation(sig, map[string]interface{}{"why": fmt.Sprintf("counter of the second derivation: %d delivered under name %q tags %q, 2 recorded", got, n2, t2), "case": desc})
+	}
+	c.Event("invalid-byte-twins", 1)
 }
